@@ -107,20 +107,22 @@ Proof.
   apply lname_eqb_spec in E. intros H; inversion H; subst. now left.
 Qed.
 
+Lemma wf_add_cleanup_link s o c : wf s -> wf (add_cleanup_link s o c).
+Proof. intros W. unfold add_cleanup_link. destruct o; [exact W | now apply wf_add_inst_link]. Qed.
+
 Lemma wf_sync_container s cached c : wf s -> wf (fst (sync_container (s, cached) c)).
 Proof.
   intros W. unfold sync_container.
-  destruct (target_exists s (rget (running s) (app_name c))).
-  { cbn [fst]. destruct (match mget Z.eqb cached (app_name c) with Some c' => cont_eqb c' c | None => false end);
-      [exact W | now apply wf_terminate]. }
-  destruct (target_exists s (lget (cleanup s) (LInst (app_name c)))); [exact W|].
-  destruct (match mget Z.eqb cached (app_name c) with Some c' => cont_eqb c' c | None => false end).
-  - destruct (match aget (apps s) c with Some f => flagged f | None => false end).
-    + cbn [fst]. now apply wf_add_inst_link.
+  destruct (opt_is c (linked s (rget (running s) (app_name c)))).
+  { destruct (opt_is c (mget Z.eqb cached (app_name c))); cbn [fst]; [exact W | now apply wf_terminate]. }
+  destruct (opt_is c (linked s (lget (cleanup s) (LInst (app_name c))))); [exact W|].
+  destruct (opt_is c (mget Z.eqb cached (app_name c))).
+  - destruct (has_cleanup_file s c).
+    + cbn [fst]. now apply wf_add_cleanup_link.
     + destruct (configure s (app_name c)) as [s1 ok] eqn:Hc.
       assert (W1 : wf s1) by (change s1 with (fst (s1, ok)); rewrite <- Hc; now apply wf_configure).
-      cbn [fst]. destruct ok; [exact W1 | now apply wf_add_inst_link].
-  - cbn [fst]. now apply wf_add_inst_link.
+      cbn [fst]. destruct ok; [exact W1 | now apply wf_add_cleanup_link].
+  - cbn [fst]. now apply wf_add_cleanup_link.
 Qed.
 
 Lemma wf_fold_sync l : forall s cached, wf s -> wf (fst (fold_left sync_container l (s, cached))).
@@ -143,8 +145,9 @@ Qed.
 Lemma wf_handle s e oc oi : wf s -> wf (handle s e oc oi).
 Proof.
   intros W. destruct e as [i|i| | |b]; cbn.
-  - destruct (negb (active s)); auto. destruct (rget (running s) i); auto. now apply wf_configure.
-  - destruct (negb (active s)); auto. now apply wf_terminate.
+  - destruct (negb (active s)); auto. destruct (rget (running s) i); auto.
+    destruct (is_finished s i); auto. now apply wf_configure.
+  - destruct (negb (active s)); auto. destruct (runs_manifest s i); auto. now apply wf_terminate.
   - destruct (active s); auto. apply wf_synchronize. exact (wf_same_links s _ eq_refl eq_refl W).
   - exact (wf_same_links s _ eq_refl eq_refl W).
   - exact W.
@@ -192,12 +195,12 @@ Proof. apply wf_run, wf_init. Qed.
 
 (** a deleted event for a cached-out instance hands its running container to cleanup *)
 Lemma deleted_hands_over s i c oc oi :
-  active s = true -> rget (running s) i = Some c ->
+  active s = true -> rget (running s) i = Some c -> runs_manifest s i = false ->
   let s' := handle s (EvDeleted i) oc oi in
   rget (running s') i = None /\ lget (cleanup s') (LCont c) = Some c /\
   (forall j, j <> i -> rget (running s') j = rget (running s) j).
 Proof.
-  intros Ha Hr. cbn. rewrite Ha. cbn. unfold terminate. rewrite Hr. cbn. repeat split.
+  intros Ha Hr Hm. cbn. rewrite Ha, Hm. cbn. unfold terminate. rewrite Hr. cbn. repeat split.
   - unfold rget. rewrite rget_mdel. now rewrite Z.eqb_refl.
   - unfold lget. rewrite lget_mset. now rewrite (proj2 (lname_eqb_spec _ _) eq_refl).
   - intros j Hj. unfold rget. rewrite rget_mdel. destruct (Z.eqb i j) eqn:E; auto.
@@ -221,26 +224,56 @@ Qed.
     leaves a running link alone *)
 Lemma handler_keeps_running s e oc oi i c :
   rget (running s) i = Some c ->
-  e <> EvDeleted i -> (e = EvReadyUp -> active s = true) ->
+  (e = EvDeleted i -> runs_manifest s i = true) -> (e = EvReadyUp -> active s = true) ->
   rget (running (handle s e oc oi)) i = Some c.
 Proof.
   intros Hr Hd Hu. destruct e as [j|j| | |b]; cbn.
   - destruct (negb (active s)); auto. destruct (Z.eq_dec j i) as [->|Hj].
     + now rewrite Hr.
-    + destruct (rget (running s) j); auto. rewrite configure_running_other; auto.
-  - destruct (negb (active s)); auto. rewrite terminate_running_other; auto. congruence.
+    + destruct (rget (running s) j); auto. destruct (is_finished s j); auto.
+      rewrite configure_running_other; auto.
+  - destruct (negb (active s)); auto. destruct (Z.eq_dec j i) as [->|Hj].
+    + now rewrite (Hd eq_refl).
+    + destruct (runs_manifest s j); auto. rewrite terminate_running_other; auto.
   - now rewrite (Hu eq_refl).
   - exact Hr.
   - exact Hr.
 Qed.
 
-(** a created event configures exactly the container of the current cache entry *)
+(** a created event configures exactly the container of the current cache entry, unless it finished *)
 Lemma created_configures s i f oc oi :
   active s = true -> rget (running s) i = None -> cget (cache s) i = Some (f, true) ->
+  is_finished s i = false ->
   rget (running (handle s (EvCreated i) oc oi)) i = Some (i, f).
 Proof.
-  intros Ha Hr Hc. cbn. rewrite Ha, Hr. cbn. unfold configure. rewrite Hc.
+  intros Ha Hr Hc Hf. cbn. rewrite Ha, Hr, Hf. cbn. unfold configure. rewrite Hc.
   destruct (aget (apps s) (i, f)); cbn; unfold rget; rewrite rget_mset, Z.eqb_refl; reflexivity.
+Qed.
+
+(** no handler for a cache event starts a container that has a cleanup file and is not running *)
+Lemma event_no_restart s e oc oi c fl :
+  e <> EvReadyUp ->
+  aget (apps s) c = Some fl -> flagged fl = true -> rget (running s) (app_name c) <> Some c ->
+  rget (running (handle s e oc oi)) (app_name c) <> Some c.
+Proof.
+  intros He Ha Hfl Hr. destruct e as [j|j| | |b]; cbn; auto; try congruence.
+  - destruct (negb (active s)); auto. destruct (rget (running s) j) eqn:Hj; auto.
+    destruct (is_finished s j) eqn:Hf; auto.
+    destruct (Z.eq_dec j (app_name c)) as [->|Hne].
+    + unfold configure. destruct (cget (cache s) (app_name c)) as [[f [|]]|] eqn:Hc; cbn [fst]; auto.
+      intros H.
+      assert (Hrun : Some (app_name c, f) = Some c).
+      { destruct (aget (apps s) (app_name c, f)); cbn in H; unfold rget in H;
+          rewrite rget_mset, Z.eqb_refl in H; exact H. }
+      assert (Hc' : (app_name c, f) = c) by congruence.
+      unfold is_finished, current_cont in Hf. rewrite Hc in Hf.
+      unfold has_cleanup_file in Hf. rewrite Hc', Ha in Hf. congruence.
+    + rewrite configure_running_other by congruence. exact Hr.
+  - destruct (negb (active s)); auto. destruct (runs_manifest s j); auto.
+    destruct (Z.eq_dec j (app_name c)) as [->|Hne].
+    + unfold terminate. destruct (rget (running s) (app_name c)) eqn:E; [|rewrite E; discriminate]. cbn.
+      unfold rget. rewrite rget_mdel, Z.eqb_refl. discriminate.
+    + rewrite terminate_running_other by congruence. exact Hr.
 Qed.
 
 (** * Ordered iteration over a set *)
@@ -369,26 +402,31 @@ Proof.
   intros Hj. rewrite (mget_mdel Z.eqb zeqb_spec). destruct (Z.eqb j i) eqn:E; auto. apply Z.eqb_eq in E. congruence.
 Qed.
 
+Lemma add_cleanup_link_other s i o c' :
+  app_name c' <> i -> same_inst i s (add_cleanup_link s o c').
+Proof. intros H. unfold add_cleanup_link. destruct o; [apply same_inst_refl | now apply add_inst_link_other]. Qed.
+
 Lemma sync_container_other s cached c' i :
   app_name c' <> i -> wf s ->
   same_inst i s (fst (sync_container (s, cached) c')) /\
   mget Z.eqb (snd (sync_container (s, cached) c')) i = mget Z.eqb cached i.
 Proof.
   intros Hj W. unfold sync_container.
-  destruct (target_exists s (rget (running s) (app_name c'))).
-  { cbn [fst snd]. split; [|now apply mget_mdel_other_z].
-    destruct (match mget Z.eqb cached (app_name c') with Some c'0 => cont_eqb c'0 c' | None => false end);
-      [apply same_inst_refl | now apply terminate_other]. }
-  destruct (target_exists s (lget (cleanup s) (LInst (app_name c')))).
-  { cbn [fst snd]. split; [apply same_inst_refl | now apply mget_mdel_other_z]. }
-  destruct (match mget Z.eqb cached (app_name c') with Some c'0 => cont_eqb c'0 c' | None => false end).
-  - destruct (match aget (apps s) c' with Some f => flagged f | None => false end).
-    + cbn [fst snd]. split; [now apply add_inst_link_other | now apply mget_mdel_other_z].
+  destruct (opt_is c' (linked s (rget (running s) (app_name c')))).
+  { destruct (opt_is c' (mget Z.eqb cached (app_name c'))); cbn [fst snd].
+    - split; [apply same_inst_refl | now apply mget_mdel_other_z].
+    - split; [now apply terminate_other | reflexivity]. }
+  destruct (opt_is c' (linked s (lget (cleanup s) (LInst (app_name c'))))).
+  { cbn [fst snd]. split; [apply same_inst_refl|].
+    destruct (opt_is c' (mget Z.eqb cached (app_name c'))); [now apply mget_mdel_other_z | reflexivity]. }
+  destruct (opt_is c' (mget Z.eqb cached (app_name c'))).
+  - destruct (has_cleanup_file s c').
+    + cbn [fst snd]. split; [now apply add_cleanup_link_other | now apply mget_mdel_other_z].
     + destruct (configure s (app_name c')) as [s1 ok] eqn:Hc.
       assert (S1 : same_inst i s s1) by (change s1 with (fst (s1, ok)); rewrite <- Hc; now apply configure_other).
       cbn [fst snd]. split; [|now apply mget_mdel_other_z].
-      destruct ok; auto. eapply same_inst_trans; [exact S1 | now apply add_inst_link_other].
-  - cbn [fst snd]. split; [now apply add_inst_link_other | reflexivity].
+      destruct ok; auto. eapply same_inst_trans; [exact S1 | now apply add_cleanup_link_other].
+  - cbn [fst snd]. split; [now apply add_cleanup_link_other | reflexivity].
 Qed.
 
 Lemma fold_sync_other i l : forall s cached,
@@ -411,6 +449,9 @@ Qed.
 Ltac si_split := split; [|split; [|split; [|split]]].
 Ltac psimpl := cbn [cache apps running cleanup active queue finished with_cache with_apps with_running
                     with_cleanup with_active with_queue with_finished enqueue fst snd].
+
+Ltac psimpl_in H := cbn [cache apps running cleanup active queue finished with_cache with_apps with_running
+                           with_cleanup with_active with_queue with_finished enqueue fst snd] in H.
 
 Lemma configure_congr s1 s2 i :
   same_inst i s1 s2 -> same_inst i (fst (configure s1 i)) (fst (configure s2 i)).
@@ -477,9 +518,9 @@ Qed.
 Lemma cont_eta (c : cont) : c = (app_name c, snd c).
 Proof. destruct c; reflexivity. Qed.
 
-Lemma target_exists_congr i s1 s2 (o : option cont) :
+Lemma linked_congr i s1 s2 (o : option cont) :
   same_inst i s1 s2 -> (forall c, o = Some c -> app_name c = i) ->
-  target_exists s2 o = target_exists s1 o.
+  linked s2 o = linked s1 o.
 Proof.
   intros (_ & _ & _ & _ & A5) Ho. destruct o as [c|]; cbn; auto.
   rewrite (cont_eta c), (Ho c eq_refl). now rewrite A5.
@@ -506,6 +547,10 @@ Proof.
   - intros f. unfold lget. rewrite !lget_mset. cbn. apply A4.
 Qed.
 
+Lemma add_cleanup_link_congr i s1 s2 o f0 :
+  same_inst i s1 s2 -> same_inst i (add_cleanup_link s1 o (i, f0)) (add_cleanup_link s2 o (i, f0)).
+Proof. intros S. unfold add_cleanup_link. destruct o; auto. cbn [app_name fst]. now apply add_link_congr. Qed.
+
 Lemma sync_container_congr i f0 s1 s2 c1 c2 :
   same_inst i s1 s2 -> wf s1 -> mget Z.eqb c2 i = mget Z.eqb c1 i ->
   same_inst i (fst (sync_container (s1, c1) (i, f0))) (fst (sync_container (s2, c2) (i, f0))) /\
@@ -513,26 +558,25 @@ Lemma sync_container_congr i f0 s1 s2 c1 c2 :
 Proof.
   intros S [W1 W2] Hc. assert (S' := S). destruct S' as (A1 & A2 & A3 & A4 & A5).
   unfold sync_container. cbn [app_name fst].
-  rewrite Hc, A2, A3, (A5 f0).
-  rewrite (target_exists_congr i s1 s2 (rget (running s1) i) S) by (intros c H; now apply W1).
-  rewrite (target_exists_congr i s1 s2 (lget (cleanup s1) (LInst i)) S).
+  rewrite Hc, A2, A3. unfold has_cleanup_file. rewrite (A5 f0).
+  rewrite (linked_congr i s1 s2 (rget (running s1) i) S) by (intros c H; now apply W1).
+  rewrite (linked_congr i s1 s2 (lget (cleanup s1) (LInst i)) S).
   2:{ intros c H. destruct (W2 _ _ H) as [E|E]; inversion E; auto. }
   assert (Hdel : mget Z.eqb (mdel Z.eqb c2 i) i = mget Z.eqb (mdel Z.eqb c1 i) i).
   { rewrite !(mget_mdel Z.eqb zeqb_spec). now rewrite Z.eqb_refl. }
-  destruct (target_exists s1 (rget (running s1) i)).
-  { cbn [fst snd]. split; auto.
-    destruct (match mget Z.eqb c1 i with Some c' => cont_eqb c' (i, f0) | None => false end); auto.
-    now apply terminate_congr. }
-  destruct (target_exists s1 (lget (cleanup s1) (LInst i))); [cbn [fst snd]; split; auto|].
-  destruct (match mget Z.eqb c1 i with Some c' => cont_eqb c' (i, f0) | None => false end).
+  destruct (opt_is (i, f0) (linked s1 (rget (running s1) i))).
+  { destruct (opt_is (i, f0) (mget Z.eqb c1 i)); cbn [fst snd]; split; auto. now apply terminate_congr. }
+  destruct (opt_is (i, f0) (linked s1 (lget (cleanup s1) (LInst i)))).
+  { cbn [fst snd]. split; auto. destruct (opt_is (i, f0) (mget Z.eqb c1 i)); auto. }
+  destruct (opt_is (i, f0) (mget Z.eqb c1 i)).
   - destruct (match aget (apps s1) (i, f0) with Some f => flagged f | None => false end).
-    + cbn [fst snd]. split; auto. now apply add_link_congr.
+    + cbn [fst snd]. split; auto. now apply add_cleanup_link_congr.
     + assert (C := configure_congr s1 s2 i S).
       assert (Hok : snd (configure s2 i) = snd (configure s1 i)).
       { unfold configure. rewrite A1. destruct (cget (cache s1) i) as [[f [|]]|]; reflexivity. }
       destruct (configure s1 i) as [t1 ok1]. destruct (configure s2 i) as [t2 ok2].
-      cbn [fst snd] in *. subst ok2. split; auto. destruct ok1; auto. now apply add_link_congr.
-  - cbn [fst snd]. split; auto. now apply add_link_congr.
+      cbn [fst snd] in *. subst ok2. split; auto. destruct ok1; auto. now apply add_cleanup_link_congr.
+  - cbn [fst snd]. split; auto. now apply add_cleanup_link_congr.
 Qed.
 
 Lemma cached0_get (c : list (inst * (Z * bool))) i :
@@ -551,15 +595,10 @@ Proof.
   - apply Z.eqb_neq in E. rewrite IH. split; [intros [H|H]; [congruence | auto] | auto].
 Qed.
 
-Definition cached0 (s : st) := map (fun kv => (fst kv, (fst kv, fst (snd kv)))) (cache s).
+Definition cached0 (s : st) : list (inst * cont) := map (fun kv => (fst kv, (fst kv, fst (snd kv)))) (cache s).
 
-(** [lone i f0 s]: apps/ holds exactly one container of instance i, namely (i, f0) *)
-Definition lone (i : inst) (f0 : Z) (s : st) : Prop :=
-  NoDup (map fst (apps s)) /\ In (i, f0) (map fst (apps s)) /\
-  forall c', In c' (map fst (apps s)) -> app_name c' = i -> c' = (i, f0).
-
-(** [none i s]: apps/ holds no container of instance i *)
-Definition none (i : inst) (s : st) : Prop := forall c', In c' (map fst (apps s)) -> app_name c' <> i.
+(** * _synchronize seen from one instance: only the containers of that instance matter *)
+Definition of_inst (i : inst) (c : cont) : bool := Z.eqb (app_name c) i.
 
 Lemma fold_sync_other_eq i l s cached sA cA :
   wf s -> (forall c', In c' l -> app_name c' <> i) ->
@@ -573,64 +612,60 @@ Lemma sync_container_congr_eq i f0 s1 s2 c1 c2 t1 d1 t2 d2 :
   same_inst i t1 t2 /\ mget Z.eqb d2 i = mget Z.eqb d1 i.
 Proof. intros S W M H1 H2. generalize (sync_container_congr i f0 s1 s2 c1 c2 S W M). rewrite H1, H2. auto. Qed.
 
-Theorem sync_lone s oc oi i f0 sB cB :
-  wf s -> lone i f0 s ->
-  sync_container (s, cached0 s) (i, f0) = (sB, cB) ->
+Lemma sync_container_other_eq s cached c' i t d :
+  app_name c' <> i -> wf s -> sync_container (s, cached) c' = (t, d) ->
+  same_inst i s t /\ mget Z.eqb d i = mget Z.eqb cached i.
+Proof. intros H W E. generalize (sync_container_other s cached c' i H W). rewrite E. auto. Qed.
+
+Lemma wf_sync_container_eq s cached c t d : wf s -> sync_container (s, cached) c = (t, d) -> wf t.
+Proof. intros W E. generalize (wf_sync_container s cached c W). now rewrite E. Qed.
+
+Lemma fold_proj i : forall L s1 c1 s2 c2 t1 d1 t2 d2,
+  wf s1 -> wf s2 -> same_inst i s1 s2 -> mget Z.eqb c2 i = mget Z.eqb c1 i ->
+  fold_left sync_container L (s1, c1) = (t1, d1) ->
+  fold_left sync_container (filter (of_inst i) L) (s2, c2) = (t2, d2) ->
+  same_inst i t1 t2 /\ mget Z.eqb d2 i = mget Z.eqb d1 i.
+Proof.
+  induction L as [|c' L IH]; intros s1 c1 s2 c2 t1 d1 t2 d2 W1 W2 S M H1 H2.
+  - cbn in H1, H2. inversion H1; inversion H2; subst. auto.
+  - cbn [fold_left filter] in H1, H2.
+    destruct (sync_container (s1, c1) c') as [u1 e1] eqn:E1.
+    destruct (of_inst i c') eqn:Ei.
+    + destruct c' as [j f]. unfold of_inst in Ei. cbn in Ei. apply Z.eqb_eq in Ei. subst j.
+      cbn [fold_left] in H2.
+      destruct (sync_container (s2, c2) (i, f)) as [u2 e2] eqn:E2.
+      destruct (sync_container_congr_eq i f s1 s2 c1 c2 u1 e1 u2 e2 S W1 M E1 E2) as [SB MB].
+      assert (V1 : wf u1) by exact (wf_sync_container_eq s1 c1 (i, f) u1 e1 W1 E1).
+      assert (V2 : wf u2) by exact (wf_sync_container_eq s2 c2 (i, f) u2 e2 W2 E2).
+      exact (IH u1 e1 u2 e2 t1 d1 t2 d2 V1 V2 SB MB H1 H2).
+    + assert (Hne : app_name c' <> i) by (unfold of_inst in Ei; now apply Z.eqb_neq in Ei).
+      destruct (sync_container_other_eq s1 c1 c' i u1 e1 Hne W1 E1) as [SB MB].
+      assert (V1 : wf u1) by exact (wf_sync_container_eq s1 c1 c' u1 e1 W1 E1).
+      assert (S' : same_inst i u1 s2) by (eapply same_inst_trans; [apply same_inst_sym; exact SB | exact S]).
+      assert (M' : mget Z.eqb c2 i = mget Z.eqb e1 i) by congruence.
+      exact (IH u1 e1 s2 c2 t1 d1 t2 d2 V1 W2 S' M' H1 H2).
+Qed.
+
+Definition inst_conts (s : st) (oc : list cont) (i : inst) : list cont :=
+  filter (of_inst i) (arrangeb cont_eqb oc (map fst (apps s))).
+
+Theorem sync_proj s oc oi i sB cB :
+  wf s ->
+  fold_left sync_container (inst_conts s oc i) (s, cached0 s) = (sB, cB) ->
   same_inst i (match mget Z.eqb cB i with Some _ => fst (configure sB i) | None => sB end)
               (synchronize s oc oi).
 Proof.
-  intros W (Hnd & Hin & Hlone) HB0.
-  unfold synchronize. fold (cached0 s).
-  set (conf := arrangeb cont_eqb oc (map fst (apps s))).
-  assert (Hnd' : NoDup conf) by (apply (arrangeb_NoDup cont_eqb cont_eqb_spec); exact Hnd).
-  assert (Hin' : In (i, f0) conf) by (apply (arrangeb_In cont_eqb cont_eqb_spec); exact Hin).
-  destruct (@NoDup_split cont (i, f0) conf Hnd' Hin') as (l1 & l2 & Hconf & Hn1 & Hn2).
-  assert (Hother : forall l, (forall x, In x l -> In x conf) -> ~ In (i, f0) l -> forall c', In c' l -> app_name c' <> i).
-  { intros l Hsub Hn c' Hc' E. apply Hn. rewrite <- (Hlone c'); auto.
-    apply (arrangeb_In cont_eqb cont_eqb_spec oc). apply Hsub. exact Hc'. }
-  assert (Ho1 : forall c', In c' l1 -> app_name c' <> i).
-  { apply Hother; auto. intros x Hx. rewrite Hconf. apply in_or_app. now left. }
-  assert (Ho2 : forall c', In c' l2 -> app_name c' <> i).
-  { apply Hother; auto. intros x Hx. rewrite Hconf. apply in_or_app. right. now right. }
-  rewrite Hconf, fold_left_app. cbn [fold_left].
-  destruct (fold_left sync_container l1 (s, cached0 s)) as [sA cA] eqn:HA.
-  destruct (fold_sync_other_eq i l1 s (cached0 s) sA cA W Ho1 HA) as (SA & MA & WA).
-  destruct (sync_container (sA, cA) (i, f0)) as [sB' cB'] eqn:HB.
-  destruct (sync_container_congr_eq i f0 s sA (cached0 s) cA sB cB sB' cB' SA W MA HB0 HB) as [SB MB].
-  assert (WB : wf sB') by (change sB' with (fst (sB', cB')); rewrite <- HB; now apply wf_sync_container).
-  destruct (fold_left sync_container l2 (sB', cB')) as [sC cC] eqn:HC.
-  destruct (fold_sync_other_eq i l2 sB' cB' sC cC WB Ho2 HC) as (SC & MC & WC).
-  assert (SBC : same_inst i sB sC) by (eapply same_inst_trans; eauto).
-  assert (MBC : mget Z.eqb cC i = mget Z.eqb cB i) by congruence.
-  rewrite <- MBC.
+  intros W HB. unfold synchronize. fold (cached0 s).
+  destruct (fold_left sync_container (arrangeb cont_eqb oc (map fst (apps s))) (s, cached0 s)) as [sC cC] eqn:HC.
+  destruct (fold_proj i _ s (cached0 s) s (cached0 s) sC cC sB cB W W (same_inst_refl i s) eq_refl HC HB) as [S M].
+  rewrite M.
   destruct (mget Z.eqb cC i) eqn:Hm.
-  - eapply same_inst_trans; [apply configure_congr; exact SBC|].
-    apply final_loop_in. apply (arrangeb_In Z.eqb zeqb_spec). apply mget_keys. congruence.
-  - eapply same_inst_trans; [exact SBC|].
-    apply final_loop_not_in. intros Hin2. apply (arrangeb_In Z.eqb zeqb_spec) in Hin2.
-    apply mget_keys in Hin2. congruence.
-Qed.
-
-(** instance without a container directory: configured iff it is cached *)
-Theorem sync_none s oc oi i :
-  wf s -> none i s ->
-  same_inst i (match cget (cache s) i with Some _ => fst (configure s i) | None => s end)
-              (synchronize s oc oi).
-Proof.
-  intros W Hnone. unfold synchronize. fold (cached0 s).
-  set (conf := arrangeb cont_eqb oc (map fst (apps s))).
-  assert (Ho : forall c', In c' conf -> app_name c' <> i).
-  { intros c' Hc'. apply Hnone. now apply (arrangeb_In cont_eqb cont_eqb_spec oc). }
-  destruct (fold_left sync_container conf (s, cached0 s)) as [sA cA] eqn:HA.
-  destruct (fold_sync_other_eq i conf s (cached0 s) sA cA W Ho HA) as (SA & MA & WA).
-  unfold cached0 in MA. rewrite cached0_get in MA.
-  destruct (cget (cache s) i) as [v|] eqn:Hc; rewrite ?Hc in MA.
-  - eapply same_inst_trans; [apply configure_congr; exact SA|].
+  - eapply same_inst_trans; [apply configure_congr; apply same_inst_sym; exact S|].
     apply final_loop_in. apply (arrangeb_In Z.eqb zeqb_spec). apply mget_keys.
-    intros Hx. pose proof (eq_trans (eq_sym MA) Hx) as Hy. discriminate Hy.
-  - eapply same_inst_trans; [exact SA|].
+    intros Hx. pose proof (eq_trans (eq_sym Hm) Hx) as Hy. discriminate Hy.
+  - eapply same_inst_trans; [apply same_inst_sym; exact S|].
     apply final_loop_not_in. intros Hin2. apply (arrangeb_In Z.eqb zeqb_spec) in Hin2.
-    apply mget_keys in Hin2. exact (Hin2 MA).
+    apply mget_keys in Hin2. exact (Hin2 Hm).
 Qed.
 
 Lemma aget_keys (m : list (cont * flags)) c : In c (map fst m) <-> aget m c <> None.
@@ -641,134 +676,513 @@ Proof.
   - apply cont_eqb_false in E. rewrite IH. split; [intros [H|H]; [congruence | auto] | auto].
 Qed.
 
-Lemma cached0_cur s i f0 :
-  match mget Z.eqb (cached0 s) i with Some c' => cont_eqb c' (i, f0) | None => false end =
-  match cget (cache s) i with Some v => Z.eqb (fst v) f0 | None => false end.
+Lemma inst_conts_spec s oc i c : In c (inst_conts s oc i) <-> app_name c = i /\ aget (apps s) c <> None.
 Proof.
-  unfold cached0. rewrite cached0_get. destruct (cget (cache s) i) as [v|]; auto.
-  unfold cont_eqb. cbn. now rewrite Z.eqb_refl.
+  unfold inst_conts. rewrite filter_In, (arrangeb_In cont_eqb cont_eqb_spec), aget_keys.
+  unfold of_inst. rewrite Z.eqb_eq. tauto.
 Qed.
+
+Lemma inst_conts_NoDup s oc i : NoDup (map fst (apps s)) -> NoDup (inst_conts s oc i).
+Proof. intros H. unfold inst_conts. apply NoDup_filter'. now apply (arrangeb_NoDup cont_eqb cont_eqb_spec). Qed.
+
+(** ** containers of the instance that are not the cached generation *)
+Lemma linked_apps s s' o : apps s' = apps s -> linked s' o = linked s o.
+Proof. intros H. unfold linked. now rewrite H. Qed.
+
+Lemma linked_some s o x : linked s o = Some x -> o = Some x /\ aget (apps s) x <> None.
+Proof.
+  unfold linked. destruct o as [c|]; [|discriminate]. destruct (aget (apps s) c) eqn:E; [|discriminate].
+  intros H; inversion H; subst. split; [reflexivity | congruence].
+Qed.
+
+Lemma opt_is_true c o : opt_is c o = true <-> o = Some c.
+Proof.
+  unfold opt_is. destruct o as [c'|]; [|split; discriminate].
+  rewrite cont_eqb_spec. split; [intros ->; reflexivity | intros H; inversion H; reflexivity].
+Qed.
+
+Lemma opt_is_false_some c x : opt_is c (Some x) = false <-> x <> c.
+Proof. unfold opt_is. apply cont_eqb_false. Qed.
+
+Definition Ki (s : st) (i : inst) := lget (cleanup s) (LInst i).
+
+Lemma nc_step s cached i f' t d :
+  wf s -> opt_is (i, f') (mget Z.eqb cached i) = false ->
+  sync_container (s, cached) (i, f') = (t, d) ->
+  d = cached /\ apps t = apps s /\ cache t = cache s /\
+  rget (running t) i = (if opt_is (i, f') (linked s (rget (running s) i)) then None else rget (running s) i) /\
+  (linked s (Ki s i) <> None -> Ki t i = Ki s i) /\
+  (forall x, linked t (Ki t i) = Some x -> linked s (Ki s i) = Some x \/ x = (i, f')) /\
+  (forall x, lget (cleanup s) (LCont x) = Some x -> lget (cleanup t) (LCont x) = Some x) /\
+  (opt_is (i, f') (linked s (rget (running s) i)) = true -> lget (cleanup t) (LCont (i, f')) = Some (i, f')).
+Proof.
+  intros W Hnc H. unfold sync_container in H. cbn [app_name fst] in H. rewrite Hnc in H. fold (Ki s i) in H.
+  destruct (opt_is (i, f') (linked s (rget (running s) i))) eqn:E1.
+  - inversion H; subst t d; clear H.
+    apply opt_is_true in E1. apply linked_some in E1. destruct E1 as [Hr _].
+    unfold terminate. rewrite Hr. psimpl. repeat split; auto.
+    + unfold rget. rewrite rget_mdel, Z.eqb_refl. reflexivity.
+    + intros _. unfold Ki. psimpl. unfold lget. rewrite lget_mset. reflexivity.
+    + intros x Hx. left. unfold Ki in *. psimpl_in Hx. unfold lget in Hx. rewrite lget_mset in Hx. cbn [lname_eqb] in Hx.
+      rewrite <- Hx. symmetry. now apply linked_apps.
+    + intros x Hx. unfold lget. rewrite lget_mset. destruct (lname_eqb (LCont (i, f')) (LCont x)) eqn:E; auto.
+      apply lname_eqb_spec in E. inversion E; subst. reflexivity.
+    + intros _. unfold lget. rewrite lget_mset. now rewrite (proj2 (lname_eqb_spec _ _) eq_refl).
+  - destruct (opt_is (i, f') (linked s (Ki s i))) eqn:E2.
+    + inversion H; subst t d; clear H. repeat split; auto. discriminate.
+    + inversion H; subst t d; clear H. unfold add_cleanup_link. cbn [app_name fst].
+      destruct (linked s (Ki s i)) as [k|] eqn:Ek.
+      * repeat split; auto; [intros x Hx; left; congruence | discriminate].
+      * psimpl. repeat split; auto.
+        -- congruence.
+        -- intros x Hx. right. unfold Ki in Hx. psimpl_in Hx. unfold lget in Hx. rewrite lget_mset in Hx.
+           rewrite (proj2 (lname_eqb_spec _ _) eq_refl) in Hx. apply linked_some in Hx. destruct Hx as [Hx _].
+           congruence.
+        -- intros x Hx. unfold lget. rewrite lget_mset. cbn. exact Hx.
+        -- discriminate.
+Qed.
+
+Definition kill (L : list cont) (s : st) (i : inst) : option cont :=
+  match linked s (rget (running s) i) with
+  | Some x => if memb cont_eqb x L then None else rget (running s) i
+  | None => rget (running s) i
+  end.
+
+Definition r_killed (s : st) (i : inst) : option cont :=
+  match linked s (rget (running s) i) with Some _ => None | None => rget (running s) i end.
+
+Lemma nc_fold i : forall L s cached t d,
+  wf s -> (forall c', In c' L -> app_name c' = i /\ opt_is c' (mget Z.eqb cached i) = false) ->
+  fold_left sync_container L (s, cached) = (t, d) ->
+  d = cached /\ apps t = apps s /\ cache t = cache s /\ wf t /\
+  rget (running t) i = kill L s i /\
+  (linked s (Ki s i) <> None -> Ki t i = Ki s i) /\
+  (forall x, linked t (Ki t i) = Some x -> linked s (Ki s i) = Some x \/ In x L) /\
+  (forall x, lget (cleanup s) (LCont x) = Some x -> lget (cleanup t) (LCont x) = Some x) /\
+  (forall x, In x L -> linked s (rget (running s) i) = Some x -> lget (cleanup t) (LCont x) = Some x).
+Proof.
+  induction L as [|c' L IH]; intros s cached t d W HL H.
+  - cbn in H. inversion H; subst.
+    split; [reflexivity|]. split; [reflexivity|]. split; [reflexivity|]. split; [exact W|].
+    split. { unfold kill. destruct (linked t (rget (running t) i)); reflexivity. }
+    split; [auto|]. split; [intros x Hx; left; exact Hx|]. split; [auto|]. intros x [].
+  - cbn [fold_left] in H.
+    destruct (HL c' (or_introl eq_refl)) as [Hi Hnc]. destruct c' as [j f']. cbn in Hi. subst j.
+    destruct (sync_container (s, cached) (i, f')) as [s1 d1] eqn:E1.
+    destruct (nc_step s cached i f' s1 d1 W Hnc E1) as (N1 & N2 & N3 & N4 & N5 & N6 & N7 & N8).
+    subst d1.
+    assert (W1 : wf s1) by exact (wf_sync_container_eq s cached (i, f') s1 cached W E1).
+    destruct (IH s1 cached t d W1 (fun x Hx => HL x (or_intror Hx)) H) as (I1 & I2 & I3 & I4 & I5 & I6 & I7 & I8 & I9).
+    assert (Hlk : forall o, linked s1 o = linked s o) by (intros o; now apply linked_apps).
+    split; [exact I1|]. split; [congruence|]. split; [congruence|]. split; [exact I4|].
+    split; [|split; [|split; [|split]]].
+    + rewrite I5. unfold kill. rewrite Hlk, N4. cbn [memb].
+      destruct (linked s (rget (running s) i)) as [x|] eqn:Ex; cbn [opt_is].
+      * destruct (cont_eqb x (i, f')) eqn:Exc.
+        -- apply cont_eqb_spec in Exc. subst x. unfold cont_eqb. cbn [fst snd].
+           rewrite !Z.eqb_refl. cbn [andb orb linked]. reflexivity.
+        -- rewrite Ex.
+           assert (E' : cont_eqb (i, f') x = false).
+           { apply cont_eqb_false. apply cont_eqb_false in Exc. congruence. }
+           rewrite E'. reflexivity.
+      * rewrite Ex. reflexivity.
+    + intros Hk. rewrite I6; [now apply N5|]. rewrite Hlk. rewrite (N5 Hk). exact Hk.
+    + intros x Hx. destruct (I7 x Hx) as [Hy|Hy]; [|right; right; exact Hy].
+      destruct (N6 x Hy) as [Hz|Hz]; [left; exact Hz | right; left; congruence].
+    + intros x Hx. apply I8. now apply N7.
+    + intros x [<-|Hx] Hr.
+      * apply I8. apply N8. rewrite Hr. apply opt_is_true. reflexivity.
+      * destruct (cont_eqb x (i, f')) eqn:Exc.
+        -- apply cont_eqb_spec in Exc. subst x. apply I8. apply N8. rewrite Hr. apply opt_is_true. reflexivity.
+        -- apply I9; auto. rewrite Hlk, N4, Hr. cbn [opt_is]. rewrite Exc. exact Hr.
+Qed.
+
+Lemma memb_app {A} (eqb : A -> A -> bool) x l1 l2 : memb eqb x (l1 ++ l2) = memb eqb x l1 || memb eqb x l2.
+Proof. induction l1 as [|y r IH]; cbn; auto. rewrite IH. now rewrite orb_assoc. Qed.
+
+Lemma kill_cases L s i : kill L s i = None \/ kill L s i = rget (running s) i.
+Proof. unfold kill. destruct (linked s (rget (running s) i)) as [x|]; auto. destruct (memb cont_eqb x L); auto. Qed.
+
+Lemma kill_compose L1 L2 s t i :
+  apps t = apps s -> rget (running t) i = kill L1 s i -> kill L2 t i = kill (L1 ++ L2) s i.
+Proof.
+  intros Ha Hr.
+  assert (E : kill L2 t i = match linked s (kill L1 s i) with
+                           | Some x => if memb cont_eqb x L2 then None else kill L1 s i
+                           | None => kill L1 s i end).
+  { unfold kill at 1. now rewrite (linked_apps s t _ Ha), Hr. }
+  rewrite E. unfold kill.
+  destruct (linked s (rget (running s) i)) as [x|] eqn:Ex.
+  - rewrite memb_app. destruct (memb cont_eqb x L1); cbn [orb linked]; auto. now rewrite Ex.
+  - now rewrite Ex.
+Qed.
+
+Lemma kill_all L s i : (forall x, linked s (rget (running s) i) = Some x -> In x L) -> kill L s i = r_killed s i.
+Proof.
+  intros H. unfold kill, r_killed. destruct (linked s (rget (running s) i)) as [x|]; auto.
+  rewrite (proj2 (memb_In cont_eqb cont_eqb_spec x L) (H x eq_refl)). reflexivity.
+Qed.
+
+Lemma kill_keep L s i c : rget (running s) i = Some c -> ~ In c L -> kill L s i = Some c.
+Proof.
+  intros Hr Hn. unfold kill. rewrite Hr. destruct (linked s (Some c)) as [x|] eqn:E; auto.
+  apply linked_some in E. destruct E as [E _]. inversion E; subst.
+  rewrite (proj2 (memb_false cont_eqb cont_eqb_spec x L) Hn). reflexivity.
+Qed.
+
+(** ** the running link of an instance after a resynchronisation, every state, any number of generations *)
+Definition expected_running (s : st) (i : inst) : option cont :=
+  match cget (cache s) i with
+  | Some (f, ok) =>
+      match aget (apps s) (i, f) with
+      | Some fl =>
+          if opt_is (i, f) (linked s (rget (running s) i)) then Some (i, f)      (* already running: left alone *)
+          else if opt_is (i, f) (linked s (Ki s i)) || flagged fl || negb ok
+               then r_killed s i                              (* in cleanup, finished, or configure fails *)
+               else Some (i, f)                               (* configured *)
+      | None => if ok then Some (i, f) else r_killed s i      (* new manifest: configured *)
+      end
+  | None => r_killed s i                                      (* not cached: a running generation is terminated *)
+  end.
+
+Lemma cached0_i s i :
+  mget Z.eqb (cached0 s) i = match cget (cache s) i with Some v => Some ((i, fst v) : cont) | None => None end.
+Proof. unfold cached0. apply cached0_get. Qed.
 
 Lemma cached0_del s i : mget Z.eqb (mdel Z.eqb (cached0 s) i) i = None.
 Proof. rewrite (mget_mdel Z.eqb zeqb_spec). now rewrite Z.eqb_refl. Qed.
 
-(** ** the corollaries used by Props/C13.v; all about one instance [i] whose only container directory is (i, f0) *)
-Section Lone.
-  Variables (s : st) (oc : list cont) (oi : list inst) (i : inst) (f0 : Z).
-  Hypothesis W : wf s.
-  Hypothesis L : lone i f0 s.
-
-  Let s' := synchronize s oc oi.
-
-  Lemma lone_exists : exists fl, aget (apps s) (i, f0) = Some fl.
-  Proof.
-    destruct L as (_ & Hin & _). apply aget_keys in Hin. destruct (aget (apps s) (i, f0)) as [fl|]; [eauto | congruence].
-  Qed.
-
-  (** an unchanged running container is left running *)
-  Lemma sync_keeps_unchanged ok :
-    rget (running s) i = Some (i, f0) -> cget (cache s) i = Some (f0, ok) ->
-    rget (running s') i = Some (i, f0).
-  Proof.
-    intros Hr Hc. destruct lone_exists as [fl Ha].
-    destruct (sync_container (s, cached0 s) (i, f0)) as [sB cB] eqn:HB.
-    assert (S := sync_lone s oc oi i f0 sB cB W L HB).
-    unfold sync_container in HB. cbn [app_name fst] in HB.
-    rewrite Hr in HB. cbn [target_exists] in HB. rewrite Ha in HB.
-    rewrite cached0_cur, Hc in HB. cbn [fst] in HB. rewrite Z.eqb_refl in HB.
-    inversion HB; subst sB cB; clear HB.
-    rewrite cached0_del in S. destruct S as (_ & S2 & _). unfold s'. now rewrite S2.
-  Qed.
-
-  (** a running container whose cache entry disappeared (or was replaced) is handed to cleanup *)
-  Lemma sync_hands_over :
-    rget (running s) i = Some (i, f0) ->
-    (forall ok, cget (cache s) i <> Some (f0, ok)) ->
-    rget (running s') i = None /\ lget (cleanup s') (LCont (i, f0)) = Some (i, f0).
-  Proof.
-    intros Hr Hc. destruct lone_exists as [fl Ha].
-    destruct (sync_container (s, cached0 s) (i, f0)) as [sB cB] eqn:HB.
-    assert (S := sync_lone s oc oi i f0 sB cB W L HB).
-    unfold sync_container in HB. cbn [app_name fst] in HB.
-    rewrite Hr in HB. cbn [target_exists] in HB. rewrite Ha in HB.
-    rewrite cached0_cur in HB.
-    assert (Hcur : match cget (cache s) i with Some v => Z.eqb (fst v) f0 | None => false end = false).
-    { destruct (cget (cache s) i) as [[f ok]|] eqn:E; auto. cbn. apply Z.eqb_neq. intros ->. now apply (Hc ok). }
-    rewrite Hcur in HB. inversion HB; subst sB cB; clear HB.
-    rewrite cached0_del in S. destruct S as (_ & S2 & _ & S4 & _). unfold s'. rewrite S2, S4.
-    unfold terminate. rewrite Hr. psimpl. split.
-    - unfold rget. rewrite rget_mdel. now rewrite Z.eqb_refl.
-    - unfold lget. rewrite lget_mset. now rewrite (proj2 (lname_eqb_spec _ _) eq_refl).
-  Qed.
-
-  (** a finished / aborted / oom container that is not running is not started by a resynchronisation *)
-  Lemma sync_no_restart fl :
-    aget (apps s) (i, f0) = Some fl -> flagged fl = true -> rget (running s) i = None ->
-    rget (running s') i <> Some (i, f0).
-  Proof.
-    intros Ha Hfl Hr.
-    destruct (sync_container (s, cached0 s) (i, f0)) as [sB cB] eqn:HB.
-    assert (S := sync_lone s oc oi i f0 sB cB W L HB).
-    unfold sync_container in HB. cbn [app_name fst] in HB.
-    rewrite Hr in HB. change (target_exists s None) with false in HB. cbv iota in HB.
-    rewrite cached0_cur, Ha, Hfl in HB.
-    destruct (target_exists s (lget (cleanup s) (LInst i))) eqn:Et; rewrite ?Et in HB.
-    { inversion HB; subst sB cB; clear HB. rewrite cached0_del in S.
-      destruct S as (_ & S2 & _). unfold s'. rewrite S2, Hr. discriminate. }
-    destruct (cget (cache s) i) as [[f ok]|] eqn:Hc; cbn [fst] in HB.
-    - destruct (Z.eqb f f0) eqn:Ef.
-      + inversion HB; subst sB cB; clear HB. rewrite cached0_del in S.
-        destruct S as (_ & S2 & _). unfold s'. rewrite S2. psimpl. rewrite Hr. discriminate.
-      + inversion HB; subst sB cB; clear HB.
-        unfold cached0 in S. rewrite cached0_get, Hc in S.
-        destruct S as (_ & S2 & _). unfold s'. rewrite S2.
-        unfold configure. psimpl. rewrite Hc. apply Z.eqb_neq in Ef.
-        destruct ok; psimpl.
-        * destruct (aget (apps s) (i, f)); psimpl; unfold rget; rewrite rget_mset, Z.eqb_refl;
-            intros H; inversion H; congruence.
-        * rewrite Hr. discriminate.
-    - inversion HB; subst sB cB; clear HB.
-      unfold cached0 in S. rewrite cached0_get, Hc in S.
-      destruct S as (_ & S2 & _). unfold s'. rewrite S2. psimpl. rewrite Hr. discriminate.
-  Qed.
-
-  (** no stale generation: the instance runs afterwards exactly when its cached manifest can be
-      configured (not in cleanup under its instance name, not finished, configure succeeds) *)
-  Lemma sync_running_lone ok fl :
-    cget (cache s) i = Some (f0, ok) -> aget (apps s) (i, f0) = Some fl ->
-    rget (running s) i = None ->
-    rget (running s') i =
-      if target_exists s (lget (cleanup s) (LInst i)) || flagged fl || negb ok then None else Some (i, f0).
-  Proof.
-    intros Hc Ha Hr.
-    destruct (sync_container (s, cached0 s) (i, f0)) as [sB cB] eqn:HB.
-    assert (S := sync_lone s oc oi i f0 sB cB W L HB).
-    unfold sync_container in HB. cbn [app_name fst] in HB.
-    rewrite Hr in HB. change (target_exists s None) with false in HB. cbv iota in HB.
-    rewrite cached0_cur, Ha, Hc in HB. cbn [fst] in HB. rewrite Z.eqb_refl in HB.
-    destruct (target_exists s (lget (cleanup s) (LInst i))) eqn:Et; rewrite ?Et in HB; cbn [orb].
-    { inversion HB; subst sB cB; clear HB. rewrite cached0_del in S.
-      destruct S as (_ & S2 & _). unfold s'. now rewrite S2. }
-    destruct (flagged fl); cbn [orb].
-    { inversion HB; subst sB cB; clear HB. rewrite cached0_del in S.
-      destruct S as (_ & S2 & _). unfold s'. rewrite S2. psimpl. exact Hr. }
-    unfold configure in HB. rewrite Hc, Ha in HB. destruct ok; cbn [negb]; psimpl.
-    - inversion HB; subst sB cB; clear HB. rewrite cached0_del in S.
-      destruct S as (_ & S2 & _). unfold s'. rewrite S2. psimpl.
-      unfold rget. rewrite rget_mset, Z.eqb_refl. reflexivity.
-    - inversion HB; subst sB cB; clear HB. rewrite cached0_del in S.
-      destruct S as (_ & S2 & _). unfold s'. rewrite S2. psimpl. exact Hr.
-  Qed.
-End Lone.
-
-(** an instance without a container directory is configured exactly when it is cached and configurable *)
-Lemma sync_running_none s oc oi i :
-  wf s -> none i s -> rget (running s) i = None ->
-  rget (running (synchronize s oc oi)) i =
-    match cget (cache s) i with Some (f, true) => Some (i, f) | _ => None end.
+Lemma linked_running_in s oc i x : wf s -> linked s (rget (running s) i) = Some x -> In x (inst_conts s oc i).
 Proof.
-  intros W N Hr. destruct (sync_none s oc oi i W N) as (_ & S2 & _). rewrite S2.
-  destruct (cget (cache s) i) as [[f ok]|] eqn:Hc; auto.
-  unfold configure. rewrite Hc. destruct ok; psimpl; auto.
-  destruct (aget (apps s) (i, f)); psimpl; unfold rget; rewrite rget_mset, Z.eqb_refl; reflexivity.
+  intros [W1 _] H. apply linked_some in H. destruct H as [Hr Ha]. apply inst_conts_spec. split; auto.
 Qed.
+
+Lemma fold_split {A B} (f : A -> B -> A) l1 c l2 a r :
+  fold_left f (l1 ++ c :: l2) a = r ->
+  exists a1 a2, fold_left f l1 a = a1 /\ f a1 c = a2 /\ fold_left f l2 a2 = r.
+Proof. intros H. rewrite fold_left_app in H. cbn in H. eauto. Qed.
+
+Lemma opt_is_refl c : opt_is c (Some c) = true.
+Proof. now apply opt_is_true. Qed.
+
+Theorem sync_running_general s oc oi i :
+  wf s -> NoDup (map fst (apps s)) ->
+  rget (running (synchronize s oc oi)) i = expected_running s i.
+Proof.
+  intros W Hnd.
+  destruct (fold_left sync_container (inst_conts s oc i) (s, cached0 s)) as [sB cB] eqn:HB.
+  destruct (sync_proj s oc oi i sB cB W HB) as (_ & S2 & _). rewrite S2. clear S2.
+  unfold expected_running.
+  destruct (cget (cache s) i) as [[f ok]|] eqn:Hc.
+  2:{ (* not cached *)
+    assert (HL : forall c', In c' (inst_conts s oc i) ->
+                            app_name c' = i /\ opt_is c' (mget Z.eqb (cached0 s) i) = false).
+    { intros c' Hc'. apply inst_conts_spec in Hc'. split; [tauto|]. rewrite cached0_i, Hc. reflexivity. }
+    destruct (nc_fold i _ s (cached0 s) sB cB W HL HB) as (N1 & N2 & N3 & N4 & N5 & _).
+    subst cB. rewrite cached0_i, Hc. rewrite N5. apply kill_all.
+    intros x Hx. eapply linked_running_in; eauto. }
+  assert (Hc0 : mget Z.eqb (cached0 s) i = Some (i, f)) by (rewrite cached0_i, Hc; reflexivity).
+  destruct (aget (apps s) (i, f)) as [fl|] eqn:Ha.
+  2:{ (* cached, no container directory yet *)
+    assert (HL : forall c', In c' (inst_conts s oc i) ->
+                            app_name c' = i /\ opt_is c' (mget Z.eqb (cached0 s) i) = false).
+    { intros c' Hc'. apply inst_conts_spec in Hc'. split; [tauto|]. rewrite Hc0.
+      apply opt_is_false_some. intros E. destruct Hc' as [_ Hex]. rewrite <- E in Hex. exact (Hex Ha). }
+    destruct (nc_fold i _ s (cached0 s) sB cB W HL HB) as (N1 & N2 & N3 & N4 & N5 & _).
+    subst cB. rewrite Hc0. unfold configure. rewrite N3, Hc.
+    destruct ok; psimpl.
+    - rewrite N2, Ha. psimpl. unfold rget. rewrite rget_mset, Z.eqb_refl. reflexivity.
+    - rewrite N5. apply kill_all. intros x Hx. eapply linked_running_in; eauto. }
+  (* cached and its container exists: it is one of the instance's containers *)
+  assert (Hin : In (i, f) (inst_conts s oc i)).
+  { apply inst_conts_spec. split; [reflexivity | congruence]. }
+  destruct (@NoDup_split cont (i, f) _ (inst_conts_NoDup s oc i Hnd) Hin) as (L1 & L2 & Hsp & Hn1 & Hn2).
+  rewrite Hsp in HB. apply fold_split in HB. destruct HB as ([sA cA] & [sM cM] & HA & HM & HT).
+  assert (Hmem : forall x, In x L1 \/ In x L2 -> In x (inst_conts s oc i)).
+  { intros x Hx. rewrite Hsp. apply in_or_app. destruct Hx; [left; auto | right; right; auto]. }
+  assert (HL1 : forall c', In c' L1 -> app_name c' = i /\ opt_is c' (mget Z.eqb (cached0 s) i) = false).
+  { intros c' Hc'. split.
+    - apply (inst_conts_spec s oc i c'). apply Hmem; auto.
+    - rewrite Hc0. apply opt_is_false_some. intros E. apply Hn1. now rewrite E. }
+  destruct (nc_fold i L1 s (cached0 s) sA cA W HL1 HA) as (A1 & A2 & A3 & A4 & A5 & A6 & A7 & _).
+  subst cA.
+  assert (Hlk : forall o, linked sA o = linked s o) by (intros o; now apply linked_apps).
+  assert (WM : wf sM) by exact (wf_sync_container_eq sA (cached0 s) (i, f) sM cM A4 HM).
+  (* the rest of the list, once the cached generation is handled *)
+  assert (Tail : mget Z.eqb cM i = None -> apps sM = apps s ->
+                 mget Z.eqb cB i = None /\ rget (running sB) i = kill L2 sM i).
+  { intros Hm Hap.
+    assert (HL2 : forall c', In c' L2 -> app_name c' = i /\ opt_is c' (mget Z.eqb cM i) = false).
+    { intros c' Hc'. split; [apply (inst_conts_spec s oc i c'); apply Hmem; auto | now rewrite Hm]. }
+    destruct (nc_fold i L2 sM cM sB cB WM HL2 HT) as (T1 & _ & _ & _ & T5 & _).
+    subst cB. auto. }
+  assert (Rest : forall t, apps t = apps s -> rget (running t) i = kill L1 s i ->
+                 opt_is (i, f) (linked s (rget (running s) i)) = false ->
+                 kill L2 t i = r_killed s i).
+  { intros t Hap Hr E1. rewrite (kill_compose L1 L2 s t i Hap Hr). apply kill_all.
+    intros x Hx. assert (Hxi := linked_running_in s oc i x W Hx). rewrite Hsp in Hxi.
+    apply in_app_or in Hxi. apply in_or_app. destruct Hxi as [H|[H|H]]; auto.
+    subst x. rewrite Hx, opt_is_refl in E1. discriminate. }
+  assert (Hdel : mget Z.eqb (mdel Z.eqb (cached0 s) i) i = None) by apply cached0_del.
+  unfold sync_container in HM. cbn [app_name fst] in HM. rewrite Hc0, opt_is_refl in HM.
+  fold (Ki sA i) in HM. rewrite !Hlk in HM.
+  destruct (opt_is (i, f) (linked s (rget (running s) i))) eqn:E1.
+  - (* already running *)
+    assert (HRA : rget (running sA) i = Some (i, f)).
+    { rewrite A5. apply kill_keep; auto. apply opt_is_true in E1. now apply linked_some in E1. }
+    rewrite HRA in HM. replace (linked s (Some (i, f))) with (Some (i, f)) in HM by (cbn; now rewrite Ha).
+    rewrite opt_is_refl in HM. inversion HM; subst sM cM; clear HM.
+    destruct (Tail Hdel A2) as [Hm Hr]. rewrite Hm, Hr. apply kill_keep; auto.
+  - assert (E1A : opt_is (i, f) (linked s (rget (running sA) i)) = false).
+    { rewrite A5. destruct (kill_cases L1 s i) as [->| ->]; [reflexivity | exact E1]. }
+    rewrite E1A in HM.
+    destruct (opt_is (i, f) (linked s (Ki s i))) eqn:E2; cbn [orb].
+    + (* in cleanup under the instance name *)
+      assert (HK : Ki sA i = Ki s i).
+      { apply A6. apply opt_is_true in E2. congruence. }
+      rewrite HK, E2 in HM. inversion HM; subst sM cM; clear HM.
+      destruct (Tail Hdel A2) as [Hm Hr]. rewrite Hm, Hr. apply Rest; auto.
+    + assert (E2A : opt_is (i, f) (linked s (Ki sA i)) = false).
+      { destruct (linked s (Ki sA i)) as [x|] eqn:Ex; [|reflexivity].
+        apply opt_is_false_some. intros ->. rewrite <- Hlk in Ex. destruct (A7 _ Ex) as [H|H].
+        - rewrite H, opt_is_refl in E2. discriminate.
+        - contradiction. }
+      rewrite E2A in HM. unfold has_cleanup_file in HM. rewrite A2, Ha in HM.
+      destruct (flagged fl); cbn [orb].
+      * (* finished *)
+        inversion HM; subst sM cM; clear HM.
+        assert (Hap : apps (add_cleanup_link sA (linked s (Ki sA i)) (i, f)) = apps s).
+        { unfold add_cleanup_link. destruct (linked s (Ki sA i)); psimpl; exact A2. }
+        destruct (Tail Hdel Hap) as [Hm Hr]. rewrite Hm, Hr. apply Rest; auto.
+        unfold add_cleanup_link. destruct (linked s (Ki sA i)); psimpl; exact A5.
+      * unfold configure in HM. rewrite A3, Hc, A2, Ha in HM. destruct ok; cbn [negb].
+        -- inversion HM; subst sM cM; clear HM.
+           destruct (Tail Hdel A2) as [Hm Hr]. rewrite Hm, Hr. apply kill_keep; auto.
+           psimpl. unfold rget. rewrite rget_mset, Z.eqb_refl. reflexivity.
+        -- inversion HM; subst sM cM; clear HM.
+           set (sX := enqueue (with_cache sA (mdel Z.eqb (cache s) i)) (EvDeleted i)) in *.
+           assert (Hap : apps (add_cleanup_link sX (linked s (Ki sA i)) (i, f)) = apps s).
+           { unfold add_cleanup_link. destruct (linked s (Ki sA i)); psimpl; exact A2. }
+           destruct (Tail Hdel Hap) as [Hm Hr]. rewrite Hm, Hr. apply Rest; auto.
+           unfold add_cleanup_link. destruct (linked s (Ki sA i)); psimpl; exact A5.
+Qed.
+
+(** ** corollaries used by Props/C13.v *)
+
+(** an unchanged running container is left running by a resynchronisation, whatever else is in apps/ *)
+Lemma sync_keeps_unchanged s oc oi i f ok :
+  wf s -> NoDup (map fst (apps s)) ->
+  rget (running s) i = Some (i, f) -> aget (apps s) (i, f) <> None -> cget (cache s) i = Some (f, ok) ->
+  rget (running (synchronize s oc oi)) i = Some (i, f).
+Proof.
+  intros W Hnd Hr Ha Hc. rewrite (sync_running_general s oc oi i W Hnd). unfold expected_running.
+  rewrite Hc. destruct (aget (apps s) (i, f)) as [fl|] eqn:E; [|congruence].
+  rewrite Hr. cbn [linked]. rewrite E. now rewrite opt_is_refl.
+Qed.
+
+(** a resynchronisation never starts a container that has a cleanup file and is not running *)
+Lemma sync_no_restart s oc oi c fl :
+  wf s -> NoDup (map fst (apps s)) ->
+  aget (apps s) c = Some fl -> flagged fl = true -> rget (running s) (app_name c) <> Some c ->
+  rget (running (synchronize s oc oi)) (app_name c) <> Some c.
+Proof.
+  intros W Hnd Ha Hfl Hr. rewrite (sync_running_general s oc oi _ W Hnd). unfold expected_running.
+  assert (Hk : r_killed s (app_name c) <> Some c).
+  { unfold r_killed. destruct (linked s (rget (running s) (app_name c))); [discriminate | exact Hr]. }
+  destruct (cget (cache s) (app_name c)) as [[f ok]|] eqn:Hc; auto.
+  destruct (Z.eq_dec f (snd c)) as [->|Hf].
+  - rewrite <- (cont_eta c), Ha.
+    destruct (opt_is c (linked s (rget (running s) (app_name c)))) eqn:E1.
+    + apply opt_is_true in E1. apply linked_some in E1. destruct E1 as [E1 _]. congruence.
+    + rewrite Hfl, orb_true_r. cbn [orb]. exact Hk.
+  - assert (Hne : (app_name c, f) <> c) by (rewrite (cont_eta c) at 2; intros H; inversion H; congruence).
+    destruct (aget (apps s) (app_name c, f)).
+    + destruct (opt_is _ _); [congruence|]. destruct (_ || _ || _); [exact Hk | congruence].
+    + destruct ok; [congruence | exact Hk].
+Qed.
+
+(** a running generation whose manifest is gone, or was replaced by one that is not configured yet, is handed
+    to cleanup, and the new manifest (if any, and configurable) is configured *)
+Lemma sync_hands_over s oc oi i x :
+  wf s -> NoDup (map fst (apps s)) ->
+  linked s (rget (running s) i) = Some x ->
+  (forall f ok, cget (cache s) i = Some (f, ok) -> aget (apps s) (i, f) = None) ->
+  lget (cleanup (synchronize s oc oi)) (LCont x) = Some x /\
+  rget (running (synchronize s oc oi)) i = match cget (cache s) i with Some (f, true) => Some (i, f) | _ => None end.
+Proof.
+  intros W Hnd Hx Hnew. split.
+  - assert (Hxi : app_name x = i).
+    { apply linked_some in Hx. destruct Hx as [Hx _]. destruct W as [W1 _]. now apply W1. }
+    destruct x as [j fx]. cbn in Hxi. subst j.
+    destruct (fold_left sync_container (inst_conts s oc i) (s, cached0 s)) as [sB cB] eqn:HB.
+    destruct (sync_proj s oc oi i sB cB W HB) as (_ & _ & _ & S4 & _).
+    rewrite S4.
+    assert (HL : forall c', In c' (inst_conts s oc i) ->
+                            app_name c' = i /\ opt_is c' (mget Z.eqb (cached0 s) i) = false).
+    { intros c' Hc'. apply inst_conts_spec in Hc'. split; [tauto|]. rewrite cached0_i.
+      destruct (cget (cache s) i) as [[f ok]|] eqn:Hc; [|reflexivity]. cbn [fst].
+      apply opt_is_false_some. intros E. destruct Hc' as [_ Hex]. rewrite <- E in Hex.
+      exact (Hex (Hnew f ok eq_refl)). }
+    destruct (nc_fold i _ s (cached0 s) sB cB W HL HB) as (_ & _ & _ & _ & _ & _ & _ & _ & N9).
+    assert (Hcl : lget (cleanup sB) (LCont (i, fx)) = Some (i, fx)).
+    { apply N9; auto. now apply (linked_running_in s oc i (i, fx) W). }
+    destruct (mget Z.eqb cB i); auto.
+    unfold configure. destruct (cget (cache sB) i) as [[f [|]]|]; psimpl; auto.
+    destruct (aget (apps sB) (i, f)); psimpl; auto.
+  - rewrite (sync_running_general s oc oi i W Hnd). unfold expected_running, r_killed. rewrite Hx.
+    destruct (cget (cache s) i) as [[f ok]|] eqn:Hc; auto.
+    rewrite (Hnew f ok eq_refl). reflexivity.
+Qed.
+
+(** * apps/ has one entry per container name, in every reachable state *)
+Lemma keys_mset (m : list (cont * flags)) k v : NoDup (map fst m) -> NoDup (map fst (mset cont_eqb m k v)).
+Proof.
+  induction m as [|[k0 w] r IH]; cbn; intros H.
+  - constructor; [intros [] | constructor].
+  - inversion H as [|? ? Hn Hr]; subst. destruct (cont_eqb k0 k) eqn:E; cbn.
+    + constructor; auto.
+    + constructor; [|now apply IH]. intros Hin. apply Hn.
+      clear -Hin E. induction r as [|[k1 w1] r IH]; cbn in *.
+      * destruct Hin as [H|[]]. subst. rewrite (proj2 (cont_eqb_spec _ _) eq_refl) in E. discriminate.
+      * destruct (cont_eqb k1 k); cbn in Hin; destruct Hin as [H|H]; auto.
+Qed.
+
+Lemma keys_mdel (m : list (cont * flags)) k : NoDup (map fst m) -> NoDup (map fst (mdel cont_eqb m k)).
+Proof.
+  induction m as [|[k0 w] r IH]; cbn; intros H; [constructor|].
+  inversion H as [|? ? Hn Hr]; subst. destruct (cont_eqb k0 k); cbn; auto.
+  constructor; [|now apply IH]. intros Hin. apply Hn.
+  clear -Hin. induction r as [|[k1 w1] r IH]; cbn in *; [contradiction|].
+  destruct (cont_eqb k1 k); cbn in Hin; [right; auto | destruct Hin; auto].
+Qed.
+
+Definition nd (s : st) : Prop := NoDup (map fst (apps s)).
+
+Lemma nd_same s s' : apps s' = apps s -> nd s -> nd s'.
+Proof. unfold nd. now intros ->. Qed.
+
+Lemma nd_configure s i : nd s -> nd (fst (configure s i)).
+Proof.
+  intros H. unfold configure. destruct (cget (cache s) i) as [[f [|]]|]; cbn [fst]; auto.
+  destruct (aget (apps s) (i, f)); unfold nd; psimpl; auto. now apply keys_mset.
+Qed.
+
+Lemma nd_sync_container s cached c : nd s -> nd (fst (sync_container (s, cached) c)).
+Proof.
+  intros H. unfold sync_container.
+  assert (Ht : nd (terminate s (app_name c))).
+  { unfold terminate. destruct (rget (running s) (app_name c)); auto. }
+  assert (Ha : forall t o, nd t -> nd (add_cleanup_link t o c)).
+  { intros t o Hn. unfold add_cleanup_link. destruct o; auto. }
+  destruct (opt_is c (linked s (rget (running s) (app_name c)))).
+  { destruct (opt_is c (mget Z.eqb cached (app_name c))); cbn [fst]; auto. }
+  destruct (opt_is c (linked s (lget (cleanup s) (LInst (app_name c))))); auto.
+  destruct (opt_is c (mget Z.eqb cached (app_name c))); cbn [fst]; auto.
+  destruct (has_cleanup_file s c); cbn [fst]; auto.
+  assert (Hc := nd_configure s (app_name c) H).
+  destruct (configure s (app_name c)) as [s1 ok]. cbn [fst] in *. destruct ok; auto.
+Qed.
+
+Lemma nd_synchronize s oc oi : nd s -> nd (synchronize s oc oi).
+Proof.
+  intros H. unfold synchronize.
+  assert (F1 : forall l sc, nd (fst sc) -> nd (fst (fold_left sync_container l sc))).
+  { induction l as [|c l IH]; intros [t d] Hn; cbn [fold_left]; auto. apply IH. now apply nd_sync_container. }
+  assert (F2 : forall l t, nd t -> nd (fold_left (fun s i => fst (configure s i)) l t)).
+  { induction l as [|j l IH]; intros t Hn; cbn [fold_left]; auto. apply IH. now apply nd_configure. }
+  specialize (F1 (arrangeb cont_eqb oc (map fst (apps s))) (s, cached0 s) H). fold (cached0 s).
+  destruct (fold_left sync_container _ _) as [s1 c1]. apply F2. exact F1.
+Qed.
+
+Lemma nd_step s o : nd s -> nd (step s o).
+Proof.
+  intros H. destruct o as [i f ok|i| | |b|oc oi|i k|c k|l| |]; cbn; auto.
+  - destruct (cget (cache s) i); auto.
+  - destruct (queue s) as [|e q]; auto. destruct e as [i|i| | |b]; cbn.
+    + destruct (negb (active s)); auto. destruct (rget (running s) i); auto.
+      destruct (is_finished _ i); auto. now apply nd_configure.
+    + destruct (negb (active s)); auto. destruct (runs_manifest _ i); auto.
+      unfold terminate. destruct (rget _ i); auto.
+    + destruct (active s); auto. now apply nd_synchronize.
+    + exact H.
+    + exact H.
+  - destruct (rget (running s) i) as [c|]; auto. unfold nd. psimpl.
+    unfold flag_cont. destruct (aget (apps s) c); auto. unfold mark_finished.
+    destruct (memb cont_eqb c _); psimpl; now apply keys_mset.
+  - unfold flag_cont. destruct (aget (apps s) c); auto. unfold mark_finished, nd.
+    destruct (memb cont_eqb c _); psimpl; now apply keys_mset.
+  - destruct (lget (cleanup s) l); auto. unfold nd. psimpl. now apply keys_mdel.
+Qed.
+
+Lemma nd_run ops : forall s, nd s -> nd (run ops s).
+Proof. induction ops as [|o r IH]; intros s H; cbn; auto. apply IH. now apply nd_step. Qed.
+
+Theorem reachable_ok ops : wf (run ops init) /\ nd (run ops init).
+Proof. split; [apply links_wf_all | apply nd_run; constructor]. Qed.
+
+Lemma event_eq_dec (a b : event) : {a = b} + {a <> b}.
+Proof. decide equality; try apply Z.eq_dec; apply bool_dec. Qed.
+
+(** * Statements over every event sequence, in the form used by Props/C13.v *)
+Lemma reach_one_link_partial ops :
+  let s := run ops init in
+  (forall i c, rget (running s) i = Some c -> i = app_name c) /\
+  (forall l c, lget (cleanup s) l = Some c -> l = LInst (app_name c) \/ l = LCont c).
+Proof.
+  intros s. destruct (links_wf_all ops) as [W1 W2]. split; [|exact W2].
+  intros i c H. symmetry. now apply W1.
+Qed.
+
+Lemma first_sync s oc oi :
+  active s = false -> handle s EvReadyUp oc oi = synchronize (with_active s true) oc oi.
+Proof. intros H. cbn. now rewrite H. Qed.
+
+Lemma reach_unchanged_stays ops e oc oi i f ok :
+  let s := run ops init in
+  rget (running s) i = Some (i, f) -> aget (apps s) (i, f) <> None -> cget (cache s) i = Some (f, ok) ->
+  rget (running (handle s e oc oi)) i = Some (i, f).
+Proof.
+  intros s Hr Ha Hc. destruct (reachable_ok ops) as [W N]. fold s in W, N.
+  destruct (event_eq_dec e EvReadyUp) as [->|He].
+  - cbn. destruct (active s) eqn:Hact; [exact Hr|].
+    exact (sync_keeps_unchanged (with_active s true) oc oi i f ok
+             (wf_same_links s _ eq_refl eq_refl W) N Hr Ha Hc).
+  - apply handler_keeps_running; [exact Hr | | congruence].
+    intros _. unfold runs_manifest, current_cont. rewrite Hc, Hr. cbn [linked].
+    destruct (aget (apps s) (i, f)); [apply opt_is_refl | congruence].
+Qed.
+
+Lemma reach_no_restart_finished ops e oc oi c fl :
+  let s := run ops init in
+  aget (apps s) c = Some fl -> flagged fl = true -> rget (running s) (app_name c) <> Some c ->
+  rget (running (handle s e oc oi)) (app_name c) <> Some c.
+Proof.
+  intros s Ha Hfl Hr. destruct (reachable_ok ops) as [W N]. fold s in W, N.
+  destruct (event_eq_dec e EvReadyUp) as [->|He].
+  - cbn. destruct (active s) eqn:Hact; [exact Hr|].
+    exact (sync_no_restart (with_active s true) oc oi c fl
+             (wf_same_links s _ eq_refl eq_refl W) N Ha Hfl Hr).
+  - exact (event_no_restart s e oc oi c fl He Ha Hfl Hr).
+Qed.
+
+Lemma reach_sync_running ops oc oi i :
+  let s := run ops init in
+  rget (running (synchronize s oc oi)) i = expected_running s i.
+Proof. intros s. destruct (reachable_ok ops) as [W N]. now apply sync_running_general. Qed.
+
+Lemma reach_sync_configures_new ops oc oi i f :
+  let s := run ops init in
+  cget (cache s) i = Some (f, true) -> aget (apps s) (i, f) = None ->
+  rget (running (synchronize s oc oi)) i = Some (i, f).
+Proof.
+  intros s Hc Ha. unfold s. rewrite (reach_sync_running ops oc oi i). fold s.
+  unfold expected_running. now rewrite Hc, Ha.
+Qed.
+
+Lemma reach_gone_to_cleanup_sync ops oc oi i x :
+  let s := run ops init in
+  linked s (rget (running s) i) = Some x ->
+  (forall f ok, cget (cache s) i = Some (f, ok) -> aget (apps s) (i, f) = None) ->
+  lget (cleanup (synchronize s oc oi)) (LCont x) = Some x /\
+  rget (running (synchronize s oc oi)) i = match cget (cache s) i with Some (f, true) => Some (i, f) | _ => None end.
+Proof. intros s H1 H2. destruct (reachable_ok ops) as [W N]. now apply sync_hands_over. Qed.
